@@ -67,6 +67,7 @@ def units(tier):
     for lo in range(0, lim, step):
         us.append({"kind": "varint", "lo": lo, "hi": lo + step})
     us.append({"kind": "varint-extra"})
+    us.append({"kind": "prefix-boundary"})
     us.append({"kind": "wideints"})
     us.append({"kind": "negative-lengths"})
     return us
@@ -360,6 +361,8 @@ def run_unit(unit, tier):
         run_varint(unit["lo"], unit["hi"], r)
     elif k == "varint-extra":
         run_varint_extra(r)
+    elif k == "prefix-boundary":
+        run_prefix_boundary(r)
     elif k == "wideints":
         run_wideints(r)
     elif k == "negative-lengths":
@@ -479,6 +482,39 @@ def run_varint(lo, hi, r):
                         r.violation("C03/reference-self-inconsistent", {"term": t, "op": "build", "value": v, "kw": {}}, "reference parse(build(v)) != v")
                 r.case(nontrivial=a[0] == "ok", outcome="varint", transitions=2, validated=2)
     r.sample({"varint_range": [lo, hi]})
+
+
+def run_prefix_boundary(r):
+    """payload sizes at the capacity of the length/count field: one below, exactly at, one above (build must refuse with the
+    length field's error), for every length-prefixed construct and length field type, plus parsing of the largest prefix"""
+    lfs = [(G.BYTE, 255), (G.I(1, True, "b"), 127), (G.I(2, False, "b"), 65535), (G.I(2, True, "l"), 32767), (["VarInt"], 70000)]
+    for lf, cap in lfs:
+        shapes = [(["Prefixed", lf, ["GreedyBytes"], False], lambda n: b"\x07" * n),
+                  (["PascalString", lf, "ascii"], lambda n: "a" * n),
+                  (["PrefixedArray", lf, G.BYTE], lambda n: [1] * n),
+                  (["Struct", [["p", ["Prefixed", lf, ["GreedyBytes"], False]], ["t", G.BYTE]]], lambda n: {"p": b"\x07" * n, "t": 1})]
+        if lf[0] == "Int":
+            w = lf[1]
+            shapes.append((["Prefixed", lf, ["GreedyBytes"], True], lambda n, w=w: b"\x07" * max(0, n - w)))
+        for t, mkv in shapes:
+            d = T.mk(t)
+            tsig = T.sig_of(t)
+            for n in (cap - 1, cap, cap + 1, cap + 2):
+                v = mkv(n)
+                r.states += 1
+                a, vs = cmp_build(t, d, v, {}, tsig)
+                r.case(nontrivial=a[0] == "ok", outcome="prefix-boundary-" + a[0], validated=1)
+                for x in vs:
+                    r.violation(x["sig"], x["case"], x["detail"])
+                if a[0] == "ok":
+                    # the largest encodings parse back, also when cut short by one byte
+                    for data in (a[1], a[1][:-1], a[1] + b"\x00"):
+                        r.states += 1
+                        pa, vs = cmp_parse(t, d, data, {}, tsig)
+                        r.case(nontrivial=bool(pa) and pa[0] == "ok", outcome="prefix-boundary-parse", validated=1)
+                        for x in vs:
+                            r.violation(x["sig"], x["case"], x["detail"])
+    r.sample({"prefix_boundary": "5 length field types x 4-5 prefixed constructs x sizes cap-1..cap+2"})
 
 
 def run_varint_extra(r):
